@@ -29,12 +29,13 @@ HEADER = 'from enum import Enum\nfrom collections.abc import Callable\n\nfrom ro
 
 class Program:
     """A module: prelude (imports + helpers) and independent entry functions [(name, source, Entry)]."""
-    def __init__(self, name, prelude, functions, fields=None, layer='expr'):
+    def __init__(self, name, prelude, functions, fields=None, layer='expr', extra=None):
         self.name = name
         self.prelude = prelude
         self.functions = functions
         self.fields = fields or {}
         self.layer = layer
+        self.extra = extra or {}   # other modules the program imports from: {module name: source}
 
     @property
     def source(self):
@@ -45,17 +46,17 @@ class Program:
         return [e for _, _, e in self.functions]
 
     def only(self, names):
-        return Program(self.name, self.prelude, [f for f in self.functions if f[0] in names], self.fields, self.layer)
+        return Program(self.name, self.prelude, [f for f in self.functions if f[0] in names], self.fields, self.layer, self.extra)
 
     def without(self, names):
-        return Program(self.name, self.prelude, [f for f in self.functions if f[0] not in names], self.fields, self.layer)
+        return Program(self.name, self.prelude, [f for f in self.functions if f[0] not in names], self.fields, self.layer, self.extra)
 
     def to_json(self):
-        return {'name': self.name, 'prelude': self.prelude, 'functions': [[n, src, e.to_json()] for n, src, e in self.functions], 'fields': self.fields, 'layer': self.layer}
+        return {'name': self.name, 'prelude': self.prelude, 'functions': [[n, src, e.to_json()] for n, src, e in self.functions], 'fields': self.fields, 'layer': self.layer, 'extra': self.extra}
 
     @classmethod
     def from_json(cls, d):
-        return cls(d['name'], d['prelude'], [(n, src, Entry.from_json(e)) for n, src, e in d['functions']], d.get('fields'), d.get('layer', 'expr'))
+        return cls(d['name'], d['prelude'], [(n, src, Entry.from_json(e)) for n, src, e in d['functions']], d.get('fields'), d.get('layer', 'expr'), d.get('extra'))
 
 
 # ------------------------------------------------------------------------------------------ expression layer
@@ -64,21 +65,22 @@ def expression_programs(max_ops: int, both_renderings: bool, per_module: int = 9
     funcs = []
     seen = set()
     for t in pyexpr.expression_trees(max_ops, rotations=(0,)):
-        for full in ((False, True) if both_renderings else (False,)):
-            text = pyexpr.render(t, full)
-            if text in seen:
+        for mode in (('min', 'full', 'leaf') if both_renderings else ('min',)):
+            text = pyexpr.render(t, mode == 'full', mode == 'leaf')
+            if text in seen or (mode == 'leaf' and t[0] == 'leaf'):
                 continue
             seen.add(text)
             rt = pyexpr.typ(t)
             # the minimal rendering goes through an un-annotated local (its C++ declaration type comes from inference),
-            # the fully parenthesised one is returned directly
-            funcs.append((text, rt, '+'.join(pyexpr.op_classes(t)), pyexpr.n_ops(t), not full))
+            # the fully parenthesised one is returned directly, the one with redundant parentheses around every leaf
+            # initialises an annotated local
+            funcs.append((text, rt, '+'.join(pyexpr.op_classes(t)), pyexpr.n_ops(t), mode))
     for i in range(0, len(funcs), per_module):
         chunk = funcs[i:i + per_module]
         fns = []
-        for j, (text, rt, tag, n, via_local) in enumerate(chunk):
+        for j, (text, rt, tag, n, mode) in enumerate(chunk):
             name = f'e{i + j}'
-            body = f'\tx = {text}\n\treturn x\n\n' if via_local else f'\treturn {text}\n\n'
+            body = {'min': f'\tx = {text}\n\treturn x\n\n', 'full': f'\treturn {text}\n\n', 'leaf': f'\tx: {rt} = {text}\n\treturn x\n\n'}[mode]
             fns.append((name, f'def {name}(a: int, b: int, p: bool, q: bool) -> {rt}:\n' + body, Entry(name, P4, grid=G4, tag=f'expr:{tag}')))
         yield Program(f'expr{i // per_module}', HEADER, fns, layer='expr')
 
@@ -251,6 +253,15 @@ def feature_functions(full: bool):
         src = _fn(name, [(n, anno(k)) for n, k in params], ret, body)
         out.append((name, src, Entry(name, params, vectors=vectors, grid=None if vectors else (grid or G1), tag=f'feat:{tag}'), needs))
 
+    # declaration forms x initialiser kinds
+    inits = [('list-lit', 'list[int]', '[a, 2]'), ('list-mul', 'list[int]', '[7] * a'), ('list-mul-zero', 'list[int]', '[0] * a'), ('list-mul-var', 'list[int]', '[a] * 2'),
+             ('list-comp', 'list[int]', '[i * 2 for i in range(a)]'), ('list-copy', 'list[int]', 'XS.copy()'), ('dict-lit', 'dict[str, int]', "{'k': a}"),
+             ('ctor', 'Pt', 'Pt(a, 1)'), ('ctor-nested-arg', 'Pt', 'Pt(fsum(a), Pt(2, 3).x)'), ('str-lit', 'str', "'ab'"), ('int-call', 'int', 'fsum(a)'), ('float-div', 'float', 'a / 2'), ('bool-cmp', 'bool', 'a > 1')]
+    forms = [('inferred', 'x = {i}\nreturn x'), ('annotated', 'x: {t} = {i}\nreturn x'), ('direct', 'return {i}'), ('annotated-reassigned', 'x: {t} = {i}\nx = {i}\nreturn x'),
+             ('annotated-in-branch', 'if a >= 0:\n\tx: {t} = {i}\n\treturn x\nreturn {i}')]
+    for iname, ityp, init in inits:
+        for fname, form in forms:
+            add(f'decl-{fname}:{iname}', form.format(i=init, t=ityp), ret=ityp, grid=[[0, 1, 2, 3]])
     # classes
     add('class-field-method', 'p = Pt(a, 2)\np.move(3)\nreturn p.x * 10 + p.y')
     add('class-return-object', 'return Pt(a, a + 1)', ret='Pt')
